@@ -11,8 +11,12 @@ LEAN_MODULES = ['GoSnaps.Props.C16', 'GoSnaps.Props.Tie.Flows', 'GoSnaps.Props.T
                 'GoSnaps.DriverX', 'GoSnaps.Lemmas.JsonPath', 'GoSnaps.Props.C16Json',
                 'GoSnaps.Lemmas.JsonEndToEnd', 'GoSnaps.Props.Tie.JsonEndToEnd']
 
-LEAVES = ['big', 'a', 's', 'o.x', 'o.y.0', 'l.0.k', 'n', 'deep.er.est', 'filter[status]', 'filter.status', 'ids[0]', 'ids.0']
-BASE = {'big': 1585369512231022593, 'a': 1, 's': 'str', 'o': {'x': True, 'y': [1, 2]}, 'l': [{'k': 'v'}], 'n': 'nn', 'deep': {'er': {'est': 5}},
+LEAVES = ['big', 'a', 's', 'o.x', 'o.y.0', 'l.0.k', 'n', 'deep.er.est', 'filter[status]', 'filter.status', 'ids[0]', 'ids.0', 'nx', 'o.xs']
+# leaves whose path TEXT is a prefix of another leaf's path without being an ancestor of it (id / idempotencyKey)
+PREFIX_PARTNER = {'n': 'nx', 'o.x': 'o.xs', 'nx': 'n', 'o.xs': 'o.x'}
+# containers: masking one masks everything beneath it
+CONTAINERS = {'o': ['o.x', 'o.y.0', 'o.xs'], 'deep.er': ['deep.er.est'], 'deep': ['deep.er.est'], 'l.0': ['l.0.k']}
+BASE = {'big': 1585369512231022593, 'a': 1, 's': 'str', 'o': {'x': True, 'y': [1, 2], 'xs': 'plural'}, 'l': [{'k': 'v'}], 'n': 'nn', 'nx': 'nnx', 'deep': {'er': {'est': 5}},
         # keys that CONTAIN brackets next to members reachable through the dotted reading of the same text
         'filter[status]': 'open', 'filter': {'status': 'dotted'}, 'ids[0]': 'literal', 'ids': ['element']}
 YLEAVES = ['a', 's', 'o.x', 'flag']
@@ -52,10 +56,26 @@ def make_world(g, tag):
     leaves, base = (YLEAVES, YBASE) if kind == 'yaml' else (LEAVES, BASE)
     masked = r.sample(leaves, r.randint(1, 3))
     hash_path = kind != 'yaml' and 'l.0.k' in masked and r.random() < 0.6       # the same leaf addressed as `l.#.k`
+    short_first = False
+    if kind != 'yaml':
+        for p in list(masked):
+            if p in PREFIX_PARTNER and PREFIX_PARTNER[p] not in masked and r.random() < 0.5:
+                masked.append(PREFIX_PARTNER[p])
+                short_first = r.random() < 0.6
+        if r.random() < 0.2:
+            # a member and the object around it in one list of masks (a shared list extended per test)
+            c = r.choice(sorted(CONTAINERS))
+            inner = r.choice(CONTAINERS[c])
+            masked = [p for p in masked if p not in (c, inner) and not p.startswith(c + '.')] + ([inner, c] if r.random() < 0.7 else [c])
+            hash_path = False
+
+    def covered(p):
+        return any(p == m or p.startswith(m + '.') for m in masked)
     changed = r.sample(leaves, r.randint(1, 2)) if r.random() < 0.8 else []
     if r.random() < 0.35:
         # the interesting half of the property: the variants differ at masked paths only
-        changed = r.sample(masked, r.randint(1, len(masked)))
+        pool_ = [p for p in leaves if covered(p)]
+        changed = r.sample(pool_, r.randint(1, min(3, len(pool_))))
     a, b = copy.deepcopy(base), copy.deepcopy(base)
     def getp(d, path):
         cur = d
@@ -74,7 +94,7 @@ def make_world(g, tag):
         cands = [v for v in (NEWVALS if kind != 'yaml' else ['changed', 'other', 'z9', '482913', 'true', '', 'k: v', 'null'])
                  if not (v == old and type(v) == type(old))]
         setp(b, p, r.choice(cands))
-    only_masked = all(p in masked for p in changed)
+    only_masked = all(covered(p) for p in changed) if kind != 'yaml' else all(p in masked for p in changed)
     if kind == 'yaml':
         ta, tb = yaml_of(a), yaml_of(b)
         if r.random() < 0.4:
@@ -102,6 +122,10 @@ def make_world(g, tag):
             # one matcher, several paths, missing paths ignored; a path that never exists leads, ends or
             # sits in the middle of the list
             paths = list(masked)
+            if short_first:
+                paths.sort(key=len)
+            elif r.random() < 0.3:
+                r.shuffle(paths)
             paths.insert(r.randint(0, len(paths)), 'not.there')
             mts.append(docs.any_matcher(paths, r.choice([None, '"MASK"']), False))
             masked_iter = []
@@ -114,7 +138,9 @@ def make_world(g, tag):
                 # one path masking a member of EVERY element of the array (gjson multi-match syntax)
                 mts.append(docs.any_matcher(['l.#.k'], r.choice([None, '"MASK"']), r.random() < 0.5))
                 continue
-            if k < 0.3 and type(va) == type(vb) and docs.go_type(va) in ('string', 'bool', 'float64'):
+            if p in CONTAINERS:
+                mts.append(docs.any_matcher([p], r.choice([None, '"MASK"'])))
+            elif k < 0.3 and type(va) == type(vb) and docs.go_type(va) in ('string', 'bool', 'float64'):
                 # Type is satisfied by both variants (the value kept its type)
                 mts.append(docs.type_matcher([p], docs.go_type(va)))
             elif k < 0.6:
